@@ -210,6 +210,7 @@ PROPS["C13"] = {
 
 PROPS["C05"] = {
     "level": "fault_enumeration",
+    "stall_s": {"thorough": 400},  # the >1000-row single-page case of stmt-interleave takes 2-3 minutes of CPU on its own
     "budget_s": {"quick": 90, "thorough": 2400},
     "modes": [{"name": "faults", "runs": {"quick": 260, "thorough": 6000}, "chunk": 10},
               {"name": "crash", "runs": {"quick": 120, "thorough": 3000}, "chunk": 10},
